@@ -1,6 +1,833 @@
-"""C13: front ends equal the library (placeholder, filled in below)."""
+"""C13: CLI, batch mode, action wrapper and Python bindings equal the library.
+main() (linked with the library bodies) and the PyGenerator methods are interpreted on an abstract
+Cli / abstract arguments; the configuration of the generator at the moment generate() is called is
+compared with the option values; the non-Rust front ends are parsed (shell words, YAML subset, Python ast)."""
+import ast
+import os
+import re
+
+import facts
+import absgen as G
+import harness as H
+import models as M
+import models2 as M2
+import callgraph as CG
+import cfg
+import mutsum
 from framework import Result
+from interp import Interp, Program, explore
+from models import MODELS, model
+from values import (Agg, Box_, Bytes, Opaque, PathEnd, Payload, Ref, Sym, Unanalysable, bounds, err, is_none, is_some, is_sym,
+                    none, ok, some, unit)
+
+
+# ---------------------------------------------------------------------------------------- models used only here
+class PathObj:
+    def __init__(self, base, parts=()):
+        self.base = base
+        self.parts = list(parts)
+
+    def __repr__(self):
+        return "Path(%s/%r)" % (self.base, self.parts)
+
+
+@model("<std::path::PathBuf as std::clone::Clone>::clone")
+def _pathbuf_clone(I, f, a):
+    p = M.deref(I, a[0])
+    if isinstance(p, PathObj):
+        return PathObj(p.base, p.parts)
+    return Opaque("path")
+
+
+@model("std::path::PathBuf::push")
+def _pathbuf_push(I, f, a):
+    p = M.deref(I, a[0])
+    if isinstance(p, PathObj):
+        p.parts.append(M.deref(I, a[1]))
+    return unit()
+
+
+@model("<std::path::PathBuf as std::ops::Deref>::deref")
+def _pathbuf_deref(I, f, a):
+    return a[0] if isinstance(a[0], Ref) else Ref(Box_(a[0], "path"), ())
+
+
+@model("std::path::Path::exists")
+def _path_exists(I, f, a):
+    return bool(I.run.choose(2, "dir exists"))
+
+
+@model("std::fs::create_dir", "std::fs::create_dir_all")
+def _create_dir(I, f, a):
+    I.run.event("fs_create_dir", M.deref(I, a[0]))
+    return ok(unit()) if I.run.choose(2, "create_dir ok") else err(Opaque("io::Error"))
+
+
+@model("std::fs::write")
+def _fs_write(I, f, a):
+    I.run.event("fs_write", M.deref(I, a[0]), M.deref(I, a[1]))
+    return ok(unit()) if I.run.choose(2, "fs::write ok") else err(Opaque("io::Error"))
+
+
+@model("std::io::_print", "std::io::_eprint")
+def _print(I, f, a):
+    return unit()
+
+
+@model("color_eyre::install")
+def _ce_install(I, f, a):
+    return ok(unit())
+
+
+@model("core::slice::<impl [T]>::contains")
+def _slice_contains(I, f, a):
+    el = M.as_elems(I, M.deref(I, a[0]))
+    x = M.deref(I, a[1])
+    for e in el:
+        if isinstance(e, Agg) and isinstance(x, Agg) and not e.fields and not x.fields:
+            if e.adt == x.adt and e.variant == x.variant:
+                return True
+        elif e == x:
+            return True
+    return False
+
+
+@model("rand::rng")
+def _rand_rng(I, f, a):
+    I.run.event("os_entropy", I.where())
+    return Opaque("ThreadRng")
+
+
+class ParIter:
+    def __init__(self, lo, hi):
+        self.lo, self.hi, self.f = lo, hi, None
+
+
+@model("rayon::range::<impl rayon::iter::IntoParallelIterator for std::ops::Range<T>>::into_par_iter")
+def _into_par_iter(I, f, a):
+    r = a[0]
+    I.run.event("par_range", r.fields[0], r.fields[1])
+    return ParIter(r.fields[0], r.fields[1])
+
+
+@model("rayon::iter::ParallelIterator::filter_map")
+def _par_filter_map(I, f, a):
+    a[0].f = a[1]
+    return a[0]
+
+
+@model("rayon::iter::ParallelIterator::collect")
+def _par_collect(I, f, a):
+    """one abstract element of the index space; the collected Vec is empty or not accordingly"""
+    it = a[0]
+    if I.truth(I.binop("Ge", it.lo, it.hi, "usize")):
+        return M.VecObj([])
+    idx = Sym("idx", (), "usize", bounds(it.lo)[0], bounds(it.hi)[1] - 1, attrs={"name": "idx", "rel": [("lt_arg", 0)], "rel_args": [it.hi]})
+    I.run.event("par_call", idx)
+    r = I.call_closure(it.f, [idx])
+    if is_some(r):
+        I.run.event("par_error", r.fields[0])
+        return M.VecObj([r.fields[0]])
+    # other indices may or may not fail; an all-ok run yields the empty vector
+    return M.VecObj([])
+
+
+# ----------------------------------------------------------------------------------------
+class CliCtx:
+    def __init__(self, env):
+        self.env = env
+        self.prog = Program(facts.linked_bin())
+        self.ctx = G.Ctx(self.prog)
+        self.cli_adt = self.prog.adt_of("cli::Cli")
+        self.fields = [f["name"] for f in self.prog.adts[self.cli_adt]["variants"][0]["fields"]]
+        self.kind_adt = self.prog.adt_of("mutators::MutatorKind")
+
+
+MUT_LISTS = ([], ["Bitflip"], ["All"], ["Memoindex", "Typeconfusion"], ["Boundary", "Offbyone", "Stringlen", "Character"])
+
+
+def make_cli(cc, mode, mutlist):
+    """abstract Cli value; returns (Agg, dict name -> abstract value)"""
+    vals = {}
+    for n in cc.fields:
+        if n == "file":
+            v = some(PathObj("FILE")) if mode == "file" else none()
+        elif n == "dir":
+            v = some(PathObj("DIR")) if mode == "batch" else none()
+        elif n == "protocol":
+            v = G.LazyOption("protocol", "usize")
+            v.inner.lo, v.inner.hi = 0, 5   # value_parser = parse_version (checked separately)
+        elif n == "seed":
+            v = G.LazyOption("seed", "u64")
+        elif n in ("samples", "min_opcodes", "max_opcodes"):
+            v = Sym(n, (), "usize", attrs={"name": n})
+        elif n == "mutators":
+            v = M.VecObj([cc.prog.enum_value(cc.kind_adt, k) for k in mutlist])
+        elif n == "mutation_rate":
+            v = Sym(n, (), "f64", attrs={"name": n, "f64class": "any"})
+        elif n in ("unsafe_mutations", "allow_ext", "allow_buffer"):
+            v = G.LazyBool("cli." + n)
+        else:
+            raise Unanalysable("Cli has an unknown field %s: no forwarding rule" % n)
+        vals[n] = v
+    return Agg(cc.cli_adt, 0, [vals[n] for n in cc.fields]), vals
+
+
+def run_main(cc, mode, mutlist):
+    prog, ctx = cc.prog, cc.ctx
+    mf = H.models_factory(prog, ctx, None)
+    k_main = "bin::main"
+    k_gen = prog.find("generator::Generator::generate")
+    out = []
+
+    def one(run):
+        mods = mf()
+        cli, vals = make_cli(cc, mode, mutlist)
+        snaps = []
+
+        def st_generate(I, k, a):
+            g = M.deref(I, a[0])
+            snaps.append(g)
+            I.run.event("generate_called")
+            if I.run.choose(2, "generate ok"):
+                b = Bytes([("pay", Payload("bytes", range(256), Sym("pickle_len", (), "usize", 1, 1 << 30), origin="generate()"))])
+                snaps[-1] = (g, b)
+                return ok(b)
+            snaps[-1] = (g, None)
+            return err(Opaque("eyre::Report"))
+        mods.extra["clap::Parser::parse"] = lambda I, f, a: cli
+        I = Interp(prog, run, mods, stubs={k_gen: st_generate})
+        one.last = (I, vals, snaps, None)
+        r = I.call(k_main, [])
+        return (I, vals, snaps, r)
+    for run, res, pe in explore(one, max_runs=20000):
+        I, vals, snaps, r = res if res is not None else one.last
+        out.append({"run": run, "end": pe, "vals": vals, "snaps": snaps, "ret": r, "I": I})
+    return out
+
+
+def expected_mutators(cc, I, mutlist, unsafe_val):
+    """[(type name)] the library API yields for this list: expand All with all_mutators, then create()"""
+    prog = cc.prog
+    k_all = prog.find("mutators::MutatorKind::all_mutators")
+    k_create = prog.find("mutators::MutatorKind::create")
+    kinds = [prog.enum_value(cc.kind_adt, k) for k in mutlist]
+    if "All" in mutlist:
+        v = I.call(k_all, [unsafe_val])
+        kinds = list(M.as_elems(I, v))
+    out = []
+    for kd in kinds:
+        b = I.call(k_create, [Ref(Box_(kd, "kind"), ()), unsafe_val])
+        m = b.cbox.v if isinstance(b, M.BoxVal) else b
+        out.append(m)
+    return out
+
+
+def field(cc, g, name):
+    names = cc.ctx.fields(cc.ctx.gen_adt)
+    return g.fields[names.index(name)]
+
+
+def check_snapshot(cc, res, lf, mode, mutlist, rule="R13.a"):
+    """compare the generator handed to generate() with the Cli values on this path"""
+    ctx = cc.ctx
+    vals = lf["vals"]
+    I = lf["I"]
+    tag = "%s/%s" % (mode, "+".join(mutlist) or "none")
+    loc = "src/main.rs"
+    for g, _b in lf["snaps"]:
+        res.count("R13.a")
+        # version
+        st = field(cc, g, "state")
+        ver = st.fields[ctx.field_index(ctx.state_adt, "version")]
+        vname = ver.vname if isinstance(ver, Agg) else None
+        proto, seed = vals["protocol"], vals["seed"]
+        if proto.chosen == 1:
+            want = None
+            lo, hi = bounds(proto.inner)
+            if lo == hi:
+                want = "V%d" % lo
+            if want is None or vname != want:
+                res.add(rule, "%s/protocol" % mode, "%s mode: --protocol %s yields Version %s" % (mode, (lo, hi), vname), loc)
+        elif seed.chosen == 1:
+            # protocol must be seed mod 6: the path atoms fix (seed % 6) to the variant index
+            ok6 = False
+            for a in lf["run"].atom_log:
+                v, outcome, _ = a
+                if v.op == "Eq" and outcome and isinstance(v.args[1], int):
+                    t = v.args[0]
+                    while is_sym(t) and t.op == "cast":
+                        t = t.args[0]
+                    if is_sym(t) and t.op == "rem" and t.args[0] is seed.inner and t.args[1] == 6 and vname == "V%d" % v.args[1]:
+                        ok6 = True
+            # the `otherwise` edge of the last comparison is value 5 with all others excluded
+            if not ok6:
+                t = None
+                neq = []
+                for a in lf["run"].atom_log:
+                    v, outcome, _ = a
+                    if v.op == "Eq" and not outcome and isinstance(v.args[1], int):
+                        tt = v.args[0]
+                        while is_sym(tt) and tt.op == "cast":
+                            tt = tt.args[0]
+                        if is_sym(tt) and tt.op == "rem" and tt.args[0] is seed.inner and tt.args[1] == 6:
+                            neq.append(v.args[1])
+                rest = sorted(set(range(6)) - set(neq))
+                if len(rest) == 1 and vname == "V%d" % rest[0]:
+                    ok6 = True
+            if not ok6:
+                res.add(rule, "%s/protocol-from-seed" % mode, "%s mode: without --protocol the version must be seed mod 6; found %s on a path with atoms %s" % (
+                    mode, vname, [(a[0].show(), a[1]) for a in lf["run"].atom_log][:6]), loc)
+        else:
+            if not any(e[0] == "os_entropy" for e in lf["run"].events):
+                res.add(rule, "%s/protocol-random" % mode, "%s mode: neither --protocol nor --seed given but the version is not drawn at random" % mode, loc)
+        # seed
+        gs = field(cc, g, "seed")
+        if seed.chosen == 1:
+            if not (is_some(gs) and gs.fields[0] is seed.inner):
+                res.add(rule, "%s/seed" % mode, "%s mode: --seed is not forwarded unchanged (generator.seed = %r)" % (mode, gs), loc)
+        elif seed.chosen == 0:
+            if isinstance(gs, Agg) and not is_none(gs):
+                res.add(rule, "%s/seed-absent" % mode, "%s mode: generator gets seed %r although --seed was not given" % (mode, gs), loc)
+        # opcode range
+        if field(cc, g, "min_opcodes") is not vals["min_opcodes"]:
+            res.add(rule, "%s/min_opcodes" % mode, "%s mode: --min-opcodes is not forwarded (generator.min_opcodes = %r)" % (mode, field(cc, g, "min_opcodes")), loc)
+        if field(cc, g, "max_opcodes") is not vals["max_opcodes"]:
+            res.add(rule, "%s/max_opcodes" % mode, "%s mode: --max-opcodes is not forwarded (generator.max_opcodes = %r)" % (mode, field(cc, g, "max_opcodes")), loc)
+        # flags (read unconditionally by generation code => must be forwarded unconditionally)
+        for gname, cname in (("unsafe_mutations", "unsafe_mutations"), ("allow_ext_opcodes", "allow_ext"), ("allow_buffer_opcodes", "allow_buffer")):
+            if field(cc, g, gname) is not vals[cname]:
+                res.add(rule, "%s/%s" % (mode, cname), "%s mode (mutators %s): --%s is not forwarded (generator.%s = %r)" % (
+                    mode, mutlist or "none", cname.replace("_", "-"), gname, field(cc, g, gname)), loc)
+        # mutators
+        gm = field(cc, g, "mutators")
+        exp = expected_mutators(cc, I, mutlist, vals["unsafe_mutations"])
+        got = [e.cbox.v if isinstance(e, M.BoxVal) else e for e in (M.as_elems(I, gm) if isinstance(gm, M.VecObj) else [])]
+        def sig(m):
+            return (m.adt, tuple("cli" if x is vals["unsafe_mutations"] else repr(x) for x in m.fields)) if isinstance(m, Agg) else repr(m)
+        if [sig(m) for m in got] != [sig(m) for m in exp]:
+            res.add(rule, "%s/mutators/%s" % (mode, "+".join(mutlist) or "none"),
+                    "%s mode: --mutators %s builds %r, the library API builds %r" % (mode, mutlist, [sig(m) for m in got], [sig(m) for m in exp]), loc)
+        # mutation rate: forwarded (through the clamping builder) whenever it is not inert
+        gr = field(cc, g, "mutation_rate")
+        if got:
+            if not (is_sym(gr) and gr.op == "clamp" and gr.args[0] is vals["mutation_rate"] and gr.args[1] == 0.0 and gr.args[2] == 1.0):
+                res.add(rule, "%s/mutation_rate" % mode, "%s mode: --mutation-rate is not forwarded through with_mutation_rate (generator.mutation_rate = %r)" % (mode, gr), loc)
+
+
+def rate_is_inert_without_mutators(prog):
+    """every read of Generator.mutation_rate sits behind the `mutators.is_empty()` early return"""
+    bad = []
+    cg = CG.CallGraph(prog)
+    reach = cg.reachable([prog.find("::generate_internal")])
+    for k, b in prog.bodies.items():
+        if k not in reach:
+            continue
+        reads = []
+        for i, blk in enumerate(b["blocks"]):
+            if blk["cleanup"]:
+                continue
+            for st in blk["s"]:
+                found = []
+                CG.walk_json(st, lambda d: found.append(1) if d.get("n") == "mutation_rate" else None)
+                if found and st["k"] == "assign" and not any(isinstance(p, dict) and p.get("n") == "mutation_rate" for p in st["pl"]["p"]):
+                    reads.append(i)
+        if not reads:
+            continue
+        succ = cfg.successors(b)
+        # the is_empty() call on self.mutators and the switch on its result
+        guard_true_targets = []
+        for i, blk in enumerate(b["blocks"]):
+            t = blk["t"]
+            if t["k"] == "call" and "path" in t["f"] and (cfg.callee_path(t) or "").endswith("::is_empty") and t["t"] is not None:
+                sw = b["blocks"][t["t"]]["t"]
+                if sw["k"] == "switch":
+                    guard_true_targets.append((t["t"], sw["otherwise"]))
+        if not guard_true_targets:
+            bad.append(k)
+            continue
+        swb, empty_target = guard_true_targets[0]
+        reach_when_empty = cfg.reachable_from(succ, empty_target)
+        if any(r in reach_when_empty for r in reads):
+            bad.append(k)
+    return bad
 
 
 def cli_flag_checks(env, res, rule, only=None):
-    return 0
+    """forwarding of Cli values in both modes; `only` restricts reporting to some Cli fields (used by C10)"""
+    cc = env.memo("clictx", lambda: CliCtx(env))
+    n = 0
+    tmp = Result(res.pid, res.level)
+    for mode in ("file", "batch"):
+        for ml in (MUT_LISTS if only is None else MUT_LISTS[:2]):
+            lvs = env.memo(("main", mode, tuple(ml)), lambda mode=mode, ml=ml: run_main(cc, mode, ml))
+            for lf in lvs:
+                n += 1
+                if lf["end"] is not None and lf["end"].kind != "panic":
+                    continue
+                check_snapshot(cc, tmp, lf, mode, ml, rule)
+    for f in tmp.findings:
+        if only is None or any(("/" + o) in f.key for o in only):
+            res.findings.append(f)
+    for k, v in tmp.instances.items():
+        res.instances[k] = res.instances.get(k, 0) + v
+    return n
+
+
+# ----------------------------------------------------------------------------------------
+def rule_C13(env):
+    res = Result("C13", "other")
+    cc = env.memo("clictx", lambda: CliCtx(env))
+    prog = cc.prog
+    nleaves = cli_flag_checks(env, res, "R13.a")
+    res.floor("R13.a", 20, "generate() call snapshots")
+    # inertness of the one conditionally forwarded setting
+    bad = rate_is_inert_without_mutators(env.prog)
+    for k in bad:
+        res.add("R13.a", "inert/mutation_rate/%s" % k.split("::")[-1], "%s reads mutation_rate on a path where no mutator is registered: --mutation-rate must then be forwarded unconditionally" % k, env.loc(k))
+    samples = []
+    # R13.c/d: per mode structure
+    for mode in ("file", "batch"):
+        for ml in MUT_LISTS[:2]:
+            for lf in env.memo(("main", mode, tuple(ml)), lambda: None):
+                res.count("R13.d")
+                if lf["end"] is not None:
+                    if lf["end"].kind == "panic":
+                        res.add("R13.d", "%s/panic" % mode, "main() can panic in %s mode: %s" % (mode, lf["end"].info), "src/main.rs")
+                    continue
+                evs = lf["run"].events
+                writes = [e for e in evs if e[0] == "fs_write"]
+                gens = [s for s in lf["snaps"]]
+                ret_ok = getattr(lf["ret"], "vname", None) == "Ok"
+                if mode == "file":
+                    for g, b in gens:
+                        if b is not None:
+                            if len(writes) != 1 or not (isinstance(writes[0][1], PathObj) and writes[0][1].base == "FILE" and not writes[0][1].parts) or writes[0][2] is not b:
+                                res.add("R13.d", "file/write", "single-file mode does not write exactly the generated bytes to FILE (%r)" % (writes,), "src/main.rs")
+                        elif ret_ok:
+                            res.add("R13.d", "file/error-swallowed", "single-file mode returns Ok although generation failed", "src/main.rs")
+                    if len(gens) != 1:
+                        res.add("R13.c", "file/generate-count", "single-file mode calls generate() %d times" % len(gens), "src/main.rs")
+                else:
+                    pr = [e for e in evs if e[0] == "par_range"]
+                    if not pr and not ret_ok and not gens:
+                        continue  # failed before the batch started (directory could not be created)
+                    if len(pr) != 1 or pr[0][1] != 0 or pr[0][2] is not lf["vals"]["samples"]:
+                        res.add("R13.d", "batch/index-space", "batch mode does not iterate the index space 0..samples (%r)" % (pr,), "src/main.rs")
+                        continue
+                    calls = [e for e in evs if e[0] == "par_call"]
+                    for c in calls:
+                        idx = c[1]
+                        for g, b in gens:
+                            if b is None:
+                                continue
+                            w = [e for e in writes if e[2] is b]
+                            if len(w) != 1:
+                                res.add("R13.d", "batch/write-count", "batch mode writes the bytes of one sample %d times" % len(w), "src/main.rs")
+                                continue
+                            p = w[0][1]
+                            okp = isinstance(p, PathObj) and p.base == "DIR" and len(p.parts) == 1 and isinstance(p.parts[0], Bytes)
+                            if okp:
+                                parts = M2.merge_lits(list(p.parts[0].parts))
+                                okp = len(parts) == 2 and parts[0][0] == "disp" and parts[0][1] is idx and parts[1] == ("lit", b".pkl")
+                            if not okp:
+                                res.add("R13.d", "batch/file-name", "batch mode writes sample idx to %r, expected DIR/<idx>.pkl" % (p,), "src/main.rs")
+                    errs = [e for e in evs if e[0] == "par_error"]
+                    failed = any(b is None for g, b in gens) or any(lab == "fs::write ok" and c == 0 for lab, c in zip(lf["run"].labels, lf["run"].script))
+                    if failed and ret_ok:
+                        res.add("R13.d", "batch/error-swallowed", "batch mode exits 0 although a sample could not be generated or written", "src/main.rs")
+                    if errs and ret_ok:
+                        res.add("R13.d", "batch/errors-ignored", "batch mode returns Ok although errors were collected", "src/main.rs")
+                if len(samples) < 4 and gens:
+                    samples.append({"mode": mode, "mutators": ml, "generate_calls": len(gens), "writes": [repr(w[1]) for w in writes]})
+    res.floor("R13.d", 8, "main() leaves")
+    # R13.b: MutatorKind::create <-> clap value names; parse_version range
+    nb = mutator_kind_rules(env, res, cc)
+    # R13.e python binding
+    npy = python_rules(env, res)
+    # R13.f/g non-Rust front ends
+    nsh = shell_rules(env, res)
+    npf = fuzzer_py_rules(env, res)
+    res.coverage = {"explanation": "main() linked with the library is interpreted on an abstract Cli (both modes, five mutator lists, every Option/flag/IO outcome); at every generate() "
+                    "call the generator's configuration is compared field by field with the Cli values (protocol/seed%6, seed, range, flags, mutator list = library expansion, rate); "
+                    "batch mode: index space, file names, error propagation; PyGenerator methods are interpreted on an abstract inner generator; action-run.sh / action.yml / fuzzer.py are parsed.",
+                    "evaluations": nleaves + nb + npy + nsh + npf, "distinct_nontrivial": max(2, nleaves), "main_leaves": nleaves, "samples": samples or [{"note": "no sample"}]}
+    res.undecided = ["clap's parser, pyo3's glue, bash and rayon are trusted", "byte equality with the library then follows from C07/C08 (same configuration, same entropy)"]
+    res.assumptions = ["--protocol values are 0..5 (value_parser parse_version, checked)"]
+    return res
+
+
+def mutator_kind_rules(env, res, cc):
+    prog, ctx = cc.prog, cc.ctx
+    mf = H.models_factory(prog, ctx, None)
+    from interp import Run
+    n = 0
+    k_create = prog.find("mutators::MutatorKind::create")
+    try:
+        k_tpv = prog.find("<mutators::MutatorKind as clap::ValueEnum>::to_possible_value")
+    except Unanalysable as e:
+        res.add("R13.b", "to_possible_value/anchor", str(e))
+        return 0
+    table = mutsum.MutatorTable(prog)
+    names_seen = {}
+    for kname in prog.variant_names(cc.kind_adt):
+        n += 1
+        res.count("R13.b")
+        kv = prog.enum_value(cc.kind_adt, kname)
+        mods = mf()
+        cap = {}
+        mods.extra["clap::builder::PossibleValue::new"] = lambda I, f, a, cap=cap: cap.setdefault("name", M2.lit_value(M2.as_str(I, a[0]))) and Opaque("pv") or Opaque("pv")
+        mods.extra["clap::builder::PossibleValue::help"] = lambda I, f, a: a[0]
+        I = Interp(prog, Run(), mods)
+        try:
+            I.call(k_tpv, [Ref(Box_(kv, "kind"), ())])
+        except (Unanalysable, PathEnd) as e:
+            res.add("R13.b", "to_possible_value/%s" % kname, "clap value name of MutatorKind::%s cannot be determined: %s" % (kname, e))
+            continue
+        cname = cap.get("name", b"").decode()
+        if kname == "All":
+            continue
+        flag = G.LazyBool("unsafe")
+        I2 = Interp(prog, Run(), mf())
+        try:
+            b = I2.call(k_create, [Ref(Box_(kv, "kind"), ()), flag])
+        except PathEnd as e:
+            res.add("R13.b", "create/%s/panic" % kname, "MutatorKind::%s.create() panics: %s" % (kname, e.info), env.loc(k_create))
+            continue
+        m = b.cbox.v if isinstance(b, M.BoxVal) else b
+        if not isinstance(m, Agg):
+            res.add("R13.b", "create/%s/result" % kname, "MutatorKind::%s.create() yields %r" % (kname, m), env.loc(k_create))
+            continue
+        # name() of the created mutator
+        nm_key = None
+        for i in table.impls:
+            if i["self_ty"] == m.adt:
+                nm_key = [it["key"] for it in i["items"] if it["name"] == "name"]
+        if not nm_key:
+            res.add("R13.b", "create/%s/name" % kname, "%s has no name()" % m.adt)
+            continue
+        I3 = Interp(prog, Run(), mf())
+        r = I3.call(nm_key[0], [Ref(Box_(m, "m"), ())])
+        mname = M2.lit_value(M2.as_str(I3, r)).decode()
+        if mname != cname:
+            res.add("R13.b", "create/%s/kind-mismatch" % kname, "--mutators %s creates the mutator named %r (%s)" % (cname, mname, m.adt), env.loc(k_create))
+        for fd, val in zip(prog.adts[m.adt]["variants"][0]["fields"], m.fields):
+            if fd["name"] == "unsafe_mode" and val is not flag:
+                res.add("R13.b", "create/%s/unsafe_mode" % kname, "MutatorKind::%s.create(unsafe) does not pass the flag on (unsafe_mode = %r)" % (kname, val), env.loc(k_create))
+        names_seen[kname] = (cname, m.adt)
+    res.floor("R13.b", 8, "MutatorKind variants")
+    # parse_version accepts exactly 0..5
+    try:
+        k_pv = prog.find("cli::parse_version")
+        cgb = CG.CallGraph(prog)
+        aug = [k for k in prog.bodies if k.endswith("cli::Cli as clap::Args>::augment_args")]
+        if not aug or k_pv not in cgb.fnrefs.get(aug[0], set()) and not any(k_pv in cgb.fnrefs.get(c, set()) for c in cgb.reachable(aug)):
+            res.add("R13.b", "parse_version/not-wired", "--protocol is not parsed by parse_version")
+
+        def one(run):
+            I = Interp(prog, run, mf())
+            s = Bytes([("pay", Payload("str", range(32, 127), Sym("l", (), "usize", 0, 20), origin="argv"))], True)
+            return I.call(k_pv, [Ref(Box_(s, "s"), ())])
+        for run, r, pe in explore(one, max_runs=200):
+            n += 1
+            if pe is not None:
+                res.add("R13.b", "parse_version/ends", "parse_version does not return normally: %s" % pe.info, env.loc(k_pv))
+            elif getattr(r, "vname", None) == "Ok":
+                lo, hi = bounds(r.fields[0])
+                if hi > 5:
+                    res.add("R13.b", "parse_version/range", "parse_version accepts values up to %d" % hi, env.loc(k_pv))
+    except Unanalysable as e:
+        res.add("R13.b", "parse_version/anchor", str(e))
+    return n
+
+
+# ----------------------------------------------------------------------------------------
+def python_rules(env, res):
+    try:
+        py = env.unit("pylib")
+    except Exception as e:
+        res.add("R13.e", "pylib/anchor", "python-bindings unit missing: %s" % e)
+        return 0
+    ctx = G.Ctx(py)
+    mf = H.models_factory(py, ctx, None)
+    n = 0
+    try:
+        pg_adt = py.adt_of("python::PyGenerator")
+    except Unanalysable as e:
+        res.add("R13.e", "PyGenerator/anchor", str(e))
+        return 0
+
+    def models():
+        mods = mf()
+        mods.extra["pyo3::types::PyBytes::new"] = lambda I, f, a: Opaque("PyBytes", data=M.deref(I, a[-1]))
+        mods.extra["pyo3::PyErr::new"] = lambda I, f, a: Opaque("PyErr")
+        mods.extra["<T as std::convert::Into<U>>::into"] = lambda I, f, a: a[0]
+        mods.extra["pyo3::Bound::<'py, T>::unbind"] = lambda I, f, a: a[0]
+        mods.extra["<pyo3::Bound<'py, T> as std::convert::Into<pyo3::Py<T>>>::into"] = lambda I, f, a: a[0]
+        mods.extra["pyo3::instance::<impl std::convert::From<pyo3::Bound<'_, T>> for pyo3::Py<T>>::from"] = lambda I, f, a: a[0]
+        return mods
+
+    def method(name):
+        return py.find("python::PyGenerator::" + name)
+    # set_opcode_range: every configuration field other than min/max keeps its value
+    try:
+        k = method("set_opcode_range")
+
+        def one(run):
+            I = Interp(py, run, models())
+            h = ctx.make_generator(depth_bound=2)
+            me = Agg(pg_adt, 0, [h.g])
+            a, b = Sym("min", (), "usize"), Sym("max", (), "usize")
+            one.last = (h, me, a, b)
+            I.call(k, [Ref(Box_(me, "self"), ()), a, b])
+            return (h, me, a, b)
+        for run, r, pe in explore(one, max_runs=50):
+            n += 1
+            res.count("R13.e")
+            h, me, a, b = r if r is not None else one.last
+            if pe is not None:
+                res.add("R13.e", "set_opcode_range/ends", "set_opcode_range does not return normally: %s" % pe.info, env.loc(k, py))
+                continue
+            g = me.fields[0]
+            names = ctx.fields(ctx.gen_adt)
+            for i, nme in enumerate(names):
+                v = g.fields[i]
+                if nme == "min_opcodes":
+                    if v is not a:
+                        res.add("R13.e", "set_opcode_range/min", "set_opcode_range does not set min_opcodes", env.loc(k, py))
+                elif nme == "max_opcodes":
+                    if v is not b:
+                        res.add("R13.e", "set_opcode_range/max", "set_opcode_range does not set max_opcodes", env.loc(k, py))
+                elif nme == "state":
+                    ver = v.fields[ctx.field_index(ctx.state_adt, "version")] if isinstance(v, Agg) else None
+                    if ver is not h.version:
+                        res.add("R13.e", "set_opcode_range/resets-state", "set_opcode_range replaces the generator state (protocol version object changed)", env.loc(k, py))
+                elif nme in ("output",):
+                    continue
+                elif v is not h.special[nme]:
+                    res.add("R13.e", "set_opcode_range/drops-%s" % nme, "set_opcode_range changes `%s` (was %r, now %r): other settings such as the seed must stay in force" % (
+                        nme, h.special[nme], v), env.loc(k, py))
+    except Unanalysable as e:
+        res.add("R13.e", "set_opcode_range/unanalysable", "set_opcode_range cannot be analysed: %s" % e)
+    # constructor forwards protocol and seed
+    try:
+        k = method("new")
+
+        def one2(run):
+            I = Interp(py, run, models())
+            p = Sym("protocol", (), "usize")
+            sd = G.LazyOption("seed", "u64")
+            one2.last = (p, sd, None)
+            r = I.call(k, [p, sd])
+            return (p, sd, r)
+        for run, r, pe in explore(one2, max_runs=200):
+            n += 1
+            res.count("R13.e")
+            p, sd, rv = r if r is not None else one2.last
+            if pe is not None:
+                res.add("R13.e", "new/ends", "PyGenerator::new does not return normally: %s" % pe.info, env.loc(k, py))
+                continue
+            if getattr(rv, "vname", None) != "Ok":
+                continue
+            g = rv.fields[0].fields[0]
+            names = ctx.fields(ctx.gen_adt)
+            st = g.fields[names.index("state")]
+            ver = st.fields[ctx.field_index(ctx.state_adt, "version")]
+            lo, hi = bounds(p)
+            if not (lo == hi and ver.vname == "V%d" % lo):
+                res.add("R13.e", "new/protocol", "Generator(protocol=p) builds version %s for p in [%s,%s]" % (ver.vname, lo, hi), env.loc(k, py))
+            gs = g.fields[names.index("seed")]
+            if sd.chosen == 1 and not (is_some(gs) and gs.fields[0] is sd.inner):
+                res.add("R13.e", "new/seed", "Generator(seed=s) does not forward the seed (seed = %r)" % (gs,), env.loc(k, py))
+            if sd.chosen == 0 and not is_none(gs):
+                res.add("R13.e", "new/seed-absent", "Generator() without seed gets %r" % (gs,), env.loc(k, py))
+    except Unanalysable as e:
+        res.add("R13.e", "new/unanalysable", "PyGenerator::new cannot be analysed: %s" % e)
+    # generate / generate_from_bytes / reset forward 1:1 (call graph)
+    pcg = CG.CallGraph(py)
+    for name, target in (("generate", "generate"), ("generate_from_bytes", "generate_from_arbitrary"), ("reset", "reset")):
+        try:
+            k = method(name)
+        except Unanalysable as e:
+            res.add("R13.e", "%s/anchor" % name, str(e))
+            continue
+        n += 1
+        res.count("R13.e")
+        cal = [c[0] for c in pcg.calls_of(k, external=True) if c[0] and "generator::Generator::" in c[0]]
+        if [c.split("::")[-1] for c in cal] != [target]:
+            res.add("R13.e", "%s/forwarding" % name, "PyGenerator::%s calls %r on the inner generator, expected exactly Generator::%s" % (name, cal, target), env.loc(k, py))
+    res.floor("R13.e", 5, "PyGenerator method checks")
+    return n
+
+
+# ----------------------------------------------------------------------------------------
+def shell_words(line):
+    """split a shell line into words, keeping quoted strings together"""
+    out, cur, q = [], "", None
+    i = 0
+    while i < len(line):
+        c = line[i]
+        if q:
+            if c == q:
+                q = None
+            else:
+                cur += c
+        elif c in "\"'":
+            q = c
+        elif c.isspace():
+            if cur:
+                out.append(cur)
+                cur = ""
+        elif c == "#" and not cur:
+            break
+        else:
+            cur += c
+        i += 1
+    if cur:
+        out.append(cur)
+    return out
+
+
+EXPECTED_SH = {
+    # INPUT variable -> (flag, kind)
+    "INPUT_OUTPUT_DIR": ("--dir", "value"), "INPUT_SAMPLES": ("--samples", "value"), "INPUT_PROTOCOL": ("--protocol", "value"),
+    "INPUT_SEED": ("--seed", "value"), "INPUT_MIN_OPCODES": ("--min-opcodes", "value"), "INPUT_MAX_OPCODES": ("--max-opcodes", "value"),
+    "INPUT_MUTATORS": ("--mutators", "list"), "INPUT_MUTATION_RATE": ("--mutation-rate", "value"),
+    "INPUT_UNSAFE_MUTATIONS": ("--unsafe-mutations", "bool"), "INPUT_ALLOW_EXT": ("--allow-ext", "bool"), "INPUT_ALLOW_BUFFER": ("--allow-buffer", "bool"),
+    "INPUT_OUTPUT_FILE": (None, "positional"),
+}
+
+
+def shell_rules(env, res):
+    n = 0
+    path = os.path.join(env.repo, "scripts", "action-run.sh")
+    try:
+        text = open(path).read()
+    except OSError as e:
+        res.add("R13.g", "action-run.sh/missing", "scripts/action-run.sh not readable: %s" % e)
+        return 0
+    # flags the CLI really has (from the Cli ADT: long name = field name with '-')
+    cli_fields = [f["name"] for f in env.prog.adts[env.prog.adt_of("cli::Cli")]["variants"][0]["fields"]]
+    long_flags = {"--" + f.replace("_", "-") for f in cli_fields if f != "file"}
+    # parse `if <cond>; then ... fi` blocks
+    blocks = re.findall(r"\nif (.*?); then\n(.*?)\nfi", text, re.S)
+    mapping = {}
+    for cond, body in blocks:
+        vars_ = re.findall(r"\$\{(INPUT_[A-Z_]+)(?::-)?\}", cond)
+        if not vars_:
+            continue
+        var = vars_[0]
+        adds = re.findall(r"args\+=\((.*?)\)", body)
+        kind = "bool" if cond.strip().startswith("is_true") else "value"
+        words = [shell_words(a) for a in adds]
+        mapping.setdefault(var, []).append((kind, words, cond, body))
+    for var, (flag, kind) in EXPECTED_SH.items():
+        n += 1
+        res.count("R13.g")
+        ent = mapping.get(var)
+        if not ent:
+            res.add("R13.g", "action-run.sh/%s/missing" % var, "action-run.sh does not consume %s" % var, "scripts/action-run.sh")
+            continue
+        k, words, cond, body = ent[0]
+        flat = [w for ws in words for w in ws]
+        if kind == "bool":
+            if k != "bool" or flat != [flag]:
+                res.add("R13.g", "action-run.sh/%s" % var, "%s must add exactly %s when true (through is_true); found %r" % (var, flag, flat), "scripts/action-run.sh")
+        elif kind == "value":
+            if flat != [flag, "${%s}" % var]:
+                res.add("R13.g", "action-run.sh/%s" % var, "%s must be passed as `%s \"${%s}\"`; found %r" % (var, flag, var, flat), "scripts/action-run.sh")
+        elif kind == "list":
+            if flag not in flat or "$mutator" not in flat or "IFS=', '" not in body:
+                res.add("R13.g", "action-run.sh/%s" % var, "%s must be split on ', ' and passed as repeated %s flags; found %r" % (var, flag, flat), "scripts/action-run.sh")
+        elif kind == "positional":
+            if "${%s}" % var not in flat:
+                res.add("R13.g", "action-run.sh/%s" % var, "%s must be passed as the positional FILE; found %r" % (var, flat), "scripts/action-run.sh")
+        if flag and flag not in long_flags:
+            res.add("R13.g", "cli/%s" % flag, "the CLI has no flag %s (fields: %s)" % (flag, cli_fields), "src/cli.rs")
+    for var in mapping:
+        if var not in EXPECTED_SH and var not in ("INPUT_ARGS",):
+            res.add("R13.g", "action-run.sh/%s/unknown" % var, "action-run.sh consumes %s, which has no CLI counterpart in the rule table" % var, "scripts/action-run.sh")
+    if not re.search(r'pickle-fuzzer "\$\{args\[@\]\}"', text):
+        res.add("R13.g", "action-run.sh/invocation", "action-run.sh does not invoke `pickle-fuzzer \"${args[@]}\"`", "scripts/action-run.sh")
+    # is_true accepts true/1/yes
+    m = re.search(r"is_true\(\) \{(.*?)\n\}", text, re.S)
+    if not m or not all(x in m.group(1) for x in ("true", "1", "yes", "return 0", "return 1")):
+        res.add("R13.g", "action-run.sh/is_true", "is_true() helper not recognised", "scripts/action-run.sh")
+    # action.yml passes every input in the run step
+    try:
+        yml = open(os.path.join(env.repo, "action.yml")).read()
+        steps = yml.split("\n    - ")
+        run_steps = [s for s in steps if "action-run.sh" in s]
+        if len(run_steps) != 1:
+            res.add("R13.g", "action.yml/run-step", "action.yml has %d steps running action-run.sh" % len(run_steps), "action.yml")
+        else:
+            for var in EXPECTED_SH:
+                n += 1
+                inp = var[len("INPUT_"):].lower()
+                if not re.search(r"%s:\s*\$\{\{\s*inputs\.%s\s*\}\}" % (var, inp), run_steps[0]):
+                    res.add("R13.g", "action.yml/%s" % var, "action.yml does not pass inputs.%s as %s to action-run.sh" % (inp, var), "action.yml")
+                if not re.search(r"\n  %s:\n" % inp, yml):
+                    res.add("R13.g", "action.yml/input/%s" % inp, "action.yml declares no input `%s`" % inp, "action.yml")
+    except OSError as e:
+        res.add("R13.g", "action.yml/missing", "action.yml not readable: %s" % e)
+    res.floor("R13.g", 12, "INPUT_* variables")
+    return n
+
+
+def fuzzer_py_rules(env, res):
+    path = os.path.join(env.repo, "python", "pickle_fuzzer", "fuzzer.py")
+    n = 0
+    try:
+        tree = ast.parse(open(path).read())
+    except (OSError, SyntaxError) as e:
+        res.add("R13.f", "fuzzer.py/unreadable", "fuzzer.py cannot be parsed: %s" % e)
+        return 0
+    cls = [x for x in tree.body if isinstance(x, ast.ClassDef) and x.name == "PickleMutator"]
+    if not cls:
+        res.add("R13.f", "fuzzer.py/PickleMutator", "class PickleMutator not found", "python/pickle_fuzzer/fuzzer.py")
+        return 0
+    meths = {m.name: m for m in cls[0].body if isinstance(m, ast.FunctionDef)}
+    # __init__ passes protocol and seed through to Generator
+    init = meths.get("__init__")
+    n += 1
+    res.count("R13.f")
+    okinit = False
+    if init:
+        for node in ast.walk(init):
+            if isinstance(node, ast.Call) and getattr(node.func, "id", None) == "Generator":
+                kw = {k.arg: getattr(k.value, "id", None) for k in node.keywords}
+                if kw.get("protocol") == "protocol" and kw.get("seed") == "seed":
+                    okinit = True
+    if not okinit:
+        res.add("R13.f", "fuzzer.py/__init__", "PickleMutator.__init__ does not construct Generator(protocol=protocol, seed=seed)", "python/pickle_fuzzer/fuzzer.py")
+    mut = meths.get("mutate")
+    n += 1
+    res.count("R13.f")
+    if not mut:
+        res.add("R13.f", "fuzzer.py/mutate", "PickleMutator.mutate not found", "python/pickle_fuzzer/fuzzer.py")
+        return n
+    # inside the try: result = self.generator.generate_from_bytes(data); return result or result[:max_size]
+    src = ast.unparse(mut)
+    calls = [nd for nd in ast.walk(mut) if isinstance(nd, ast.Call) and isinstance(nd.func, ast.Attribute) and nd.func.attr.startswith("generate")]
+    if len(calls) != 1 or calls[0].func.attr != "generate_from_bytes" or [getattr(a, "id", None) for a in calls[0].args] != ["data"]:
+        res.add("R13.f", "fuzzer.py/mutate/call", "mutate() must call self.generator.generate_from_bytes(data) exactly once", "python/pickle_fuzzer/fuzzer.py")
+    tr = [nd for nd in ast.walk(mut) if isinstance(nd, ast.Try)]
+    rets = []
+    if tr:
+        for nd in ast.walk(ast.Module(body=tr[0].body, type_ignores=[])):
+            if isinstance(nd, ast.Return):
+                rets.append(ast.unparse(nd.value))
+    allowed = {"result", "result[:max_size]"}
+    if not rets or not set(rets) <= allowed:
+        res.add("R13.f", "fuzzer.py/mutate/return", "mutate() must return the native result or its [:max_size] prefix; returns %r" % rets, "python/pickle_fuzzer/fuzzer.py")
+    if any(isinstance(nd, ast.Call) and isinstance(nd.func, ast.Attribute) and nd.func.attr in ("reset", "set_opcode_range") for nd in ast.walk(mut)):
+        res.add("R13.f", "fuzzer.py/mutate/extra-call", "mutate() reconfigures or resets the generator", "python/pickle_fuzzer/fuzzer.py")
+    # __init__.py re-exports the native Generator
+    try:
+        init_src = open(os.path.join(env.repo, "python", "pickle_fuzzer", "__init__.py")).read()
+        n += 1
+        if not re.search(r"from pickle_fuzzer\._native import Generator", init_src):
+            res.add("R13.f", "__init__.py/Generator", "python package does not re-export the native Generator", "python/pickle_fuzzer/__init__.py")
+    except OSError:
+        res.add("R13.f", "__init__.py/missing", "python/pickle_fuzzer/__init__.py missing")
+    return n
